@@ -241,14 +241,14 @@ BindTop(sc, f) == [sc EXCEPT ![Len(sc)] = f @@ @]
 
 \* "define": lexically  identifier = expression ; the rvalue must resolve; the lvalue is new and not reserved
 IdentOK(n) == n # "$resp"                        \* `$` is not an identifier character
+DefineErr(t, vis) ==
+    LET r == Eval(t.src, vis)
+    IN  IF ~IdentOK(t.names[1]) THEN "BadAssignment" ELSE IF ~r.ok THEN r.err ELSE LvalErr(t.names[1], vis)
 Define(t) ==
     /\ Running /\ t.k = "define"
     /\ LET vis == Visible
-           n == t.names[1]
-           r == Eval(t.src, vis)
-           e == IF ~IdentOK(n) THEN "BadAssignment" ELSE IF ~r.ok THEN r.err ELSE LvalErr(n, vis)
-       IN  Decide(t, e, IF Mutant = "body_scope_leak" THEN [scopes EXCEPT ![1] = (n :> r.f) @@ @]
-                        ELSE BindTop(scopes, n :> r.f))
+           b == t.names[1] :> Eval(t.src, vis).f
+       IN  Decide(t, DefineErr(t, vis), IF Mutant = "body_scope_leak" THEN [scopes EXCEPT ![1] = b @@ @] ELSE BindTop(scopes, b))
 
 \* "print" / "comment": as many expressions as format specifiers; each expression resolves
 FormatErr(nfmt, args, vis) ==
@@ -258,15 +258,15 @@ Format(t) ==
     /\ Decide(t, FormatErr(t.nfmt, t.args, Visible), scopes)
 
 \* "write_file": both keys present; the filename is a format; the contents expression resolves
+WriteFileErr(t, vis) ==
+    LET fe == FormatErr(t.nfmt, t.args, vis)
+    IN  IF "filename" \notin t.kw THEN "InvalidStatement"
+        ELSE IF fe # "" THEN fe
+        ELSE IF "contents" \notin t.kw THEN "InvalidStatement"
+        ELSE Eval(t.src, vis).err
 WriteFile(t) ==
     /\ Running /\ t.k = "write_file"
-    /\ LET vis == Visible
-           fe == FormatErr(t.nfmt, t.args, vis)
-           e == IF "filename" \notin t.kw THEN "InvalidStatement"
-                ELSE IF fe # "" THEN fe
-                ELSE IF "contents" \notin t.kw THEN "InvalidStatement"
-                ELSE Eval(t.src, vis).err
-       IN  Decide(t, e, scopes)
+    /\ Decide(t, WriteFileErr(t, Visible), scopes)
 
 (* "loop": either a collection loop {collection, variable, body} or a map  *)
 (* loop {map, body} with at least one of key / value and nothing else.     *)
@@ -275,33 +275,35 @@ WriteFile(t) ==
 (* entry with .key and .value).                                            *)
 CollForm == {"collection", "variable", "body"}
 MapForm  == {"map", "body"}
+LoopErr(t, vis) ==
+    LET r == Eval(t.src, vis)
+        key == "key" \in t.kw
+        val == "value" \in t.kw
+        kerr == IF key THEN LvalErr(t.names[1], vis) ELSE ""
+        vis2 == IF key THEN (t.names[1] :> Sc) @@ vis ELSE vis
+        verr == IF val THEN LvalErr(t.names[2], vis2) ELSE ""
+    IN  IF t.kw = CollForm
+        THEN IF ~r.ok THEN r.err
+             ELSE IF ~r.f.rep THEN "BadLoop"                                 \* a non-repeated field is no collection
+             ELSE LvalErr(t.names[1], vis)
+        ELSE IF MapForm \subseteq t.kw
+        THEN IF t.kw \ (MapForm \cup {"key", "value"}) # {} THEN "BadLoop"  \* unexpected keywords
+             ELSE IF ~r.ok THEN r.err
+             ELSE IF ~IsMap(r.f) THEN "BadLoop"                              \* a map loop needs a map
+             ELSE IF kerr # "" THEN kerr
+             ELSE IF verr # "" THEN verr
+             ELSE IF ~key /\ ~val /\ Mutant # "map_neither_ok" THEN "BadLoop"   \* at least one of key / value
+             ELSE ""
+        ELSE "BadLoop"                                                       \* unexpected loop form
 Loop(t) ==
     /\ Running /\ t.k = "loop"
     /\ LET vis == Visible
-           r == Eval(t.src, vis)
-           key == IF "key" \in t.kw THEN {t.names[1]} ELSE {}
-           val == IF "value" \in t.kw THEN {t.names[2]} ELSE {}
-           entry == Fields[r.f.msg]
-           kerr == IF key = {} THEN "" ELSE LvalErr(t.names[1], vis)
-           vis2 == IF key = {} THEN vis ELSE (t.names[1] :> Sc) @@ vis
-           verr == IF val = {} THEN "" ELSE LvalErr(t.names[2], vis2)
-           e == IF t.kw = CollForm
-                THEN IF ~r.ok THEN r.err
-                     ELSE IF ~r.f.rep THEN "BadLoop"                         \* a non-repeated field is no collection
-                     ELSE LvalErr(t.names[1], vis)
-                ELSE IF MapForm \subseteq t.kw
-                THEN IF t.kw \ (MapForm \cup {"key", "value"}) # {} THEN "BadLoop"      \* unexpected keywords
-                     ELSE IF ~r.ok THEN r.err
-                     ELSE IF ~IsMap(r.f) THEN "BadLoop"                      \* a map loop needs a map
-                     ELSE IF kerr # "" THEN kerr
-                     ELSE IF verr # "" THEN verr
-                     ELSE IF key \cup val = {} /\ Mutant # "map_neither_ok" THEN "BadLoop"   \* at least one of key / value
-                     ELSE ""
-                ELSE "BadLoop"                                               \* unexpected loop form
-           new == IF t.kw = CollForm THEN (t.names[1] :> [r.f EXCEPT !.rep = FALSE])
-                  ELSE (IF key = {} THEN <<>> ELSE (t.names[1] :> entry["key"]))
-                       @@ (IF val = {} THEN <<>> ELSE (t.names[2] :> entry["value"]))
-       IN  Decide(t, e, Append(scopes, new))
+           f == Eval(t.src, vis).f
+           entry == Fields[f.msg]
+           new == IF t.kw = CollForm THEN (t.names[1] :> [f EXCEPT !.rep = FALSE])     \* the iteration parameter is not repeated
+                  ELSE (IF "key" \in t.kw THEN (t.names[1] :> entry["key"]) ELSE <<>>)
+                       @@ (IF "value" \in t.kw THEN (t.names[2] :> entry["value"]) ELSE <<>>)
+       IN  Decide(t, LoopErr(t, vis), Append(scopes, new))
 
 \* after the body "the previous lexical scope is restored: stricter than python scope rules because the samplegen spec mandates it"
 EndLoop(t) ==
@@ -314,6 +316,13 @@ Invalid(t) == /\ Running /\ t.k \in {"unknown", "multi", "empty"} /\ Reject(t, "
 
 \* one step of the response block for token t (the trace specification feeds recorded tokens through this)
 Step(t) == Define(t) \/ Format(t) \/ WriteFile(t) \/ Loop(t) \/ EndLoop(t) \/ Invalid(t)
+\* the error class with which token t would be rejected in the current state ("" if it would be accepted)
+ErrOf(t) == CASE t.k = "define" -> DefineErr(t, Visible)
+              [] t.k \in {"print", "comment"} -> FormatErr(t.nfmt, t.args, Visible)
+              [] t.k = "write_file" -> WriteFileErr(t, Visible)
+              [] t.k = "loop" -> LoopErr(t, Visible)
+              [] t.k = "end" -> ""
+              [] OTHER -> "InvalidStatement"
 
 Finish == /\ Running /\ Len(scopes) = 1
           /\ verdict' = "accepted" /\ UNCHANGED <<phase, req, bases, scopes, prog, obs>>
@@ -376,6 +385,23 @@ Next == \/ \E es \in ReqLists : ValidateRequest(es)
         \/ Step(EndTok)
         \/ Finish
 Done == verdict # "running"
+(* The same actions driven by random tokens (TLC -simulate over a vocabulary too wide to enumerate the successors  *)
+(* of a state): one random token per statement kind is drawn per step and, four times out of five, one that is     *)
+(* accepted is taken if there is one, so that the sampled configurations are not all rejected at their first       *)
+(* statement.  (Rnd mentions a variable so that TLC does not fold the draw into a constant.)                       *)
+Rnd(S) == RandomElement(IF verdict = "" THEN {} ELSE S)
+PrintToks == FormatToks("print")
+CommentToks == FormatToks("comment")
+RndLoop == Tok("loop", <<Rnd(Lvals \ {"$resp"}), Rnd(LoopVals)>>, Rnd(Exprs), 0, <<>>, Rnd(LoopForms))
+RndToks == {Rnd(DefineToks), Rnd(DefineToks), Rnd(PrintToks), Rnd(CommentToks), Rnd(WriteToks), Rnd(OtherToks), RndLoop, RndLoop, EndTok}
+Fits(t) == IF t.k = "end" THEN Depth > 0 ELSE NStmts < MaxLen /\ (t.k = "loop" => Depth < MaxDepth)
+NextSim == \/ \E es \in {Rnd(ReqLists)} : ValidateRequest(es)
+           \/ /\ Running
+              /\ \E T \in {RndToks} : \E pick \in {Rnd(1..5)} :
+                    LET F == {t \in T : Fits(t)}
+                        G == {t \in F : ErrOf(t) = ""}
+                    IN  \E t \in (IF G # {} /\ pick < 5 THEN G ELSE F) : Step(t)
+           \/ Finish
 Terminated == Done /\ UNCHANGED vars
 Spec  == Init /\ [][Next]_vars /\ WF_vars(Next)
 SpecT == Init /\ [][Next \/ Terminated]_vars /\ WF_vars(Next)        \* with deadlock checking: no state but a final one is stuck
@@ -476,6 +502,15 @@ Inv_Request ==
                                                      /\ \A i \in EntriesOf(b) : pat[Cardinality({j \in EntriesOf(b) : j <= i})] = req[i].res
       /\ Params \cup {"$resp"} \subseteq DOMAIN scopes[1]
 Live == <>Done
+
+\* the tables above, for the harness: the concrete API and the name classes are built from them (single source)
+Tables == [fields |-> Fields, mapEntries |-> MapEntries, enumValues |-> EnumValues,
+           keywords |-> Keywords, builtins |-> Builtins, templateNames |-> TemplateNames,
+           refs |-> [b \in DOMAIN Fields["GetReq"] |-> RefType(b)],
+           patterns |-> [r \in ResourceMessages |-> Patterns(r)]]
+InitEmit == Init /\ PrintT(<<"TABLES", ToJson(Tables)>>)
+SpecEmit == InitEmit /\ [][Next]_vars
+SpecSim == InitEmit /\ [][NextSim]_vars
 
 \* spec -> code: one case per finished validation with the observables the specification predicts
 Case == [req |-> req, prog |-> prog, obs |-> obs, verdict |-> verdict]
